@@ -3,7 +3,7 @@
    statements as Definitions where only a part is proved, and non-vacuity Examples.
    Model: C14/Model.v (tied to /repo/systems/pbkvs/pbkvs.go by the correspondence check, ./check C14). *)
 From Coq Require Import List String.
-From PGV Require Import C14.Model C14.Corr C14.Witness C14.Proofs C14.ProofsFF C14.ProofsLin.
+From PGV Require Import C14.Model C14.Corr C14.Witness C14.Proofs C14.ProofsFF C14.ProofsLin C14.ProofsCrashC.
 Import ListNotations.
 
 (* ---------------------------------------------------------------- full statements *)
@@ -27,13 +27,29 @@ Definition pb_linearizable_statement : Prop :=
 
 (* ---------------------------------------------------------------- proved *)
 
-(* ConsistencyOK in every failure-free execution (EXPLORE_FAIL = FALSE): ANY number of replicas,
-   clients, keys, operations; every interleaving. *)
-Theorem consistency_ok_failure_free_partial : forall cfg input evs s,
+(* ConsistencyOK (pbkvs.tla, verbatim) in EVERY execution: any number of replicas, clients, keys and
+   operations, every interleaving, every either / CHOOSE resolution, every sequence of crashes taken through the
+   spec's mayFail choice (crash-stop at label boundaries, including the primary in the middle of a replication
+   or of a failover sync, any number of survivors).  This is consistency_ok_statement. *)
+Theorem consistency_ok : forall cfg input evs s,
+  Forall input_ok input ->
+  exec cfg (init cfg input) evs = Some s -> ConsistencyOK cfg s.
+Proof. exact consistency_ok_lemma. Qed.
+Print Assumptions consistency_ok.
+
+(* the same for schedules in which attempts that abort / fail an assertion leave the state unchanged
+   (what the Go runtime does): every state visited satisfies ConsistencyOK *)
+Theorem consistency_ok_run_skip : forall cfg input evs,
+  Forall input_ok input -> ConsistencyOK cfg (run_skip cfg (init cfg input) evs).
+Proof. exact consistency_run_skip_lemma. Qed.
+Print Assumptions consistency_ok_run_skip.
+
+(* (first milestone, kept: an independent, much shorter proof for failure-free executions) *)
+Theorem consistency_ok_failure_free : forall cfg input evs s,
   explore_fail cfg = false -> Forall input_ok input ->
   exec cfg (init cfg input) evs = Some s -> ConsistencyOK cfg s.
 Proof. exact consistency_failure_free_lemma. Qed.
-Print Assumptions consistency_ok_failure_free_partial.
+Print Assumptions consistency_ok_failure_free.
 
 (* the checker used on both sides of the tie is complete: a history it rejects is not linearizable *)
 Theorem lin_checker_complete : forall h, linearizable h -> linearizable_b h = true.
